@@ -263,6 +263,10 @@ func c09Scenarios(tier string) []*world.Scenario {
 		sc.Name = fmt.Sprintf("C09/oversize-merged-mget,%s/d3", strings.Join(tail, ","))
 		out = append(out, sc)
 	}
+	// a client with a reply backlog behind a full socket is closed by the proxy: the others' replies keep flowing
+	for _, how := range []string{"quit", "garbage", "fin"} {
+		out = append(out, CloseClientWithBacklog("C09", how, 2))
+	}
 	// one backend read carries a complete reply followed by the first bytes of the next one (replies cut into two
 	// segments; how many segments a read carries is an enumerated choice)
 	for _, p := range [][]string{{"FA", "FA"}, {"FA", "FA", "FA"}, {"M2", "FA"}, {"FA", "M2"}, {"FB", "FA", "FB", "FA"}} {
